@@ -172,6 +172,12 @@ func runC10(w *World) *Result {
 	r.Rule("R-C10-prefix", "imported names are kept apart by a prefix that is a digest of the whole file content, so behaviour does not depend on which names two imported files share", 1)
 	PrefixDigestRule(w, r, "R-C10-prefix", nil)
 	c09PrefixApplied(w, r, "R-C10-prefix")
+	r.Rule("R-C10-redecl", "a name that is already visible is rejected as a new variable on every path (no second variable under a spelling that is emitted as one shell name)", 1)
+	if cf, err := buildCtxFacts(w); err == nil {
+		NewnessStrictRule(w, cf, r, "R-C10-redecl")
+	} else {
+		r.Bad("R-C10-redecl", "newness:facts", "-", err.Error())
+	}
 	r.Rule("R-C10-frame", "the local names of different functions are kept apart by the emitter, so behaviour does not depend on two functions choosing the same local name", 2)
 	for _, role := range []string{"bash", "batch"} {
 		if b, err := BuildBackend(w, role); err == nil {
